@@ -15,6 +15,8 @@ NA = {
  "C17": "equivalence of two configurations over all requests - pure; its isolation clause is exercised by the C05/C06 workloads",
 }
 
+PENDING = ["C02", "C05", "C06", "C12", "C13", "C18", "C19", "C20"]
+
 CHECKS = {
  "C04": dict(cat="exploration", design="DESIGN.md §4 C04",
    technique="deterministic simulation: simulator-chosen map iteration order and pool reuse, differential against canonical-order reference",
@@ -44,7 +46,8 @@ def main():
      }],
      "checks": [],
      "notes": "exit codes: 0 held (KNOWN-FINDING lines possible), 1 violation (VIOLATION property=<id> replay=<path>), 2 infrastructure trouble. VERIF_SEED selects the base seed, VERIF_WORKERS the worker count. Replay: /verif/bin/replay <file>.",
-     "not_applicable": [{"property_id": k, "reason": v} for k, v in sorted(NA.items()) if k not in CHECKS],
+     "not_applicable": [{"property_id": k, "reason": v} for k, v in sorted(NA.items()) if k not in CHECKS]
+        + [{"property_id": k, "reason": "not claimed yet: the simulation check for this property is still under construction (DESIGN.md §4)"} for k in PENDING if k not in CHECKS],
     }
     for pid in sorted(CHECKS):
         c = CHECKS[pid]
